@@ -16,7 +16,11 @@ LineOK(x) ==
   /\ ~x.capped /\ n <= RequestBound                                           \* returns after a bounded number of requests
   /\ n >= 1
   /\ \A i \in 1..n : x.reqs[i].sym = Ans(x, i)                                \* (the log is the script: sanity of the harness)
-  /\ \A i \in 1..n : x.reqs[i].bodyOK                                         \* the original body, intact, on every request
+  \* the original body, intact, on every request - until a 302 redirect, after which HTTP turns a POST into a GET and what the
+  \* re-issued request carries is not the property's subject
+  /\ \A i \in 1..n : (x.redir = 307 \/ \A j \in 1..(i - 1) : Ans(x, j) \notin {"rs", "ro"}) => x.reqs[i].bodyOK
+  \* whatever the challenged request carried, the authenticated retry carries the same
+  /\ \A i \in 2..n : (Ans(x, i - 1) = "bare" /\ ~x.reqs[i - 1].auth) => (x.reqs[i].blen = x.reqs[i - 1].blen /\ x.reqs[i].bsum = x.reqs[i - 1].bsum)
   \* the request that answers a bare Negotiate challenge (same target) carries a token the acceptor accepts
   /\ \A i \in 2..n : (Ans(x, i - 1) = "bare" /\ ~x.reqs[i - 1].auth) => (x.reqs[i].auth /\ x.reqs[i].accepted)
   \* any token sent at all is an acceptable one
